@@ -117,6 +117,16 @@ func (p *Provider) Start(_ context.Context) error {
 
 	p.l.Info().Msg("Starting rule definitions provider")
 
+	// The watch is registered before the initial load, so that changes made while the load is
+	// in progress are not lost. The corresponding events are processed only afterwards.
+	if p.w != nil {
+		if err := p.w.Add(p.src); err != nil {
+			p.l.Error().Err(err).Msg("Failed to start rule definitions provider")
+
+			return err
+		}
+	}
+
 	if err := p.loadInitialRuleSet(); err != nil {
 		p.l.Error().Err(err).Msg("Failed loading initial rule sets")
 
@@ -128,12 +138,6 @@ func (p *Provider) Start(_ context.Context) error {
 			Msg("Watcher for file_system provider is not configured. Updates to rules will have no effects.")
 
 		return nil
-	}
-
-	if err := p.w.Add(p.src); err != nil {
-		p.l.Error().Err(err).Msg("Failed to start rule definitions provider")
-
-		return err
 	}
 
 	go p.watchFiles()
